@@ -565,7 +565,7 @@ impl super::MainState {
         conn_state: &mut ConnState,
         _: &'a str,
     ) -> Result<(), Box<dyn Error>> {
-        if let Some(notifier) = conn_state.pong_notifier.take() {
+        if let Some(notifier) = conn_state.pong_notifier.pop_front() {
             notifier
                 .send(())
                 .map_err(|_| "pong notifier error".to_string())?;
